@@ -21,6 +21,10 @@ def render_item(it) -> str:
     k = it["k"]
     if k == "t":
         return text(it["s"])
+    if k == "l":
+        return "[[" + "|".join(render(a) for a in it["args"]) + "]]"
+    if k == "x":
+        return "[http://x.y " + render(it["c"]) + "]"
     if k == "p":
         s = "{{{" + text(it["name"])
         if it["hasDef"]:
@@ -86,7 +90,7 @@ def tokenize(s: str) -> list[str]:
                 out += ["[[:Template:", s[i + 12 : j], "]]"]
                 i = j + 2
                 continue
-        for lit in ("{{{", "}}}", "{|"):
+        for lit in ("{{{", "}}}", "{|", "[[", "]]", "http://x.y"):
             if s.startswith(lit, i):
                 out.append(lit)
                 i += len(lit)
@@ -131,7 +135,20 @@ def T(s):
 PARAMS = [["1"], ["2"], ["x"], ["y"], ["SP", "x"], ["1", "SP"]]
 
 
-def rcontent(rng, depth, callable_names, in_body, budget):
+def _strip_nl(content):
+    """Top-level text of an external link cannot contain a newline (the link regexp stops there)."""
+    out = []
+    for it in content:
+        if it["k"] == "t":
+            t = [a for a in it["s"] if a != "NL"]
+            if t:
+                out.append(T(t))
+        else:
+            out.append(it)
+    return out
+
+
+def rcontent(rng, depth, callable_names, in_body, budget, nolink=False):
     """content = Seq(item)."""
     n = rng.randint(1, 3)
     c = []
@@ -147,6 +164,12 @@ def rcontent(rng, depth, callable_names, in_body, budget):
                 c.append({"k": "p", "name": name, "hasDef": True, "def": rcontent(rng, depth - 1, callable_names, in_body, budget)})
             else:
                 c.append({"k": "p", "name": name, "hasDef": False, "def": []})
+        elif r < 0.66 and not nolink:
+            budget[0] -= 1
+            if rng.random() < 0.6:
+                c.append({"k": "l", "args": [[T(["a"])]] + [rcontent(rng, depth - 1, callable_names, in_body, budget, True) or [T(["b"])] for _ in range(rng.randint(0, 2))]})
+            else:
+                c.append({"k": "x", "c": _strip_nl(rcontent(rng, depth - 1, callable_names, in_body, budget, True)) or [T(["b"])]})
         elif r < 0.85:
             budget[0] -= 1
             names = list(callable_names) + ["NOPE"]
@@ -154,7 +177,7 @@ def rcontent(rng, depth, callable_names, in_body, budget):
             args = []
             used = set()
             for _ in range(rng.randint(0, 3)):
-                v = rcontent(rng, depth - 1, callable_names, in_body, budget)
+                v = rcontent(rng, depth - 1, callable_names, in_body, budget, nolink)
                 if rng.random() < 0.5:
                     args.append({"named": False, "key": [], "val": v})
                 else:
